@@ -57,6 +57,7 @@ ALARM_TEXT = {
     905: "stop call exceeded its time bound",
     906: "panic",
     907: "hang (watchdog)",
+    909: "the instance reports leadership when its stop call returns",
     908: "StopWithContext(DeleteKey) returned while the caller's own record was still live",
     1001: "another instance's live record was replaced without (takeover enabled and strictly higher priority)",
     1002: "a strictly higher-priority takeover-enabled instance did not lead within 3 heartbeat intervals",
@@ -107,7 +108,7 @@ SIM = {
     "C05": _mk(["G1", "G2", "G3", "G4", "G6", "G7"], range(501, 507)),
     "C07": _mk(["G1", "G7"], range(701, 706), NOFAULT | {ENV_TAKEOVER, ENV_CONN, ENV_UNHEALTHY}),
     "C08": _mk(["G1", "G2", "G3", "G5", "G6", "G7"], range(801, 807)),
-    "C09": _mk(["G7", "G1", "G5"], range(901, 909)),
+    "C09": _mk(["G7", "G1", "G5"], range(901, 910)),
     "C10": _mk(["G4", "G3"], range(1001, 1004),
                code_env={1002: NOFAULT | {9012, ENV_CONN, ENV_UNHEALTHY}, 1003: NOFAULT | {9012, ENV_CONN, ENV_UNHEALTHY}}),
     "C13": _mk(["G3", "G2"], range(1301, 1306)),
